@@ -98,8 +98,8 @@ MUT_KINDS = ['genuine', 'branch_elem', 'pos_bit', 'shorten', 'lengthen', 'other_
              'tx_bytes', 'height_shift', 'no_merkle', 'empty_branch',
              'height_only', 'dict_height_only', 'dict_other_block', 'dict_height_type']
 MUT_WEIGHTS = [22, 10, 14, 7, 7, 7, 5, 8, 6, 6, 4, 9, 7, 5, 4]
-EXPECTED_PROBES = ['judged', 'expected_verified', 'expected_rejected', 'header_absent', 'dup_last_node_flip_accepted',
-                   'pos_bit_above_branch_accepted', 'witness_only_alteration_accepted', 'row_checked', 'sync_path_judged',
+EXPECTED_PROBES = ['judged', 'expected_verified', 'expected_rejected', 'header_absent', 'dup_last_node_flip_judged',
+                   'pos_bit_above_branch_judged', 'witness_only_alteration_accepted', 'row_checked', 'sync_path_judged',
                    'direct_judged', 'via_get_merkle', 'odd_level_block', 'single_tx_block', 'height_not_positive',
                    'recorded_height_differs_from_dict_both_present', 'ckpt_on_demand_fetch', 'ckpt_unaligned_fetch',
                    'ckpt_verified_in_missing_chunk', 'ckpt_sync_path_judged',
@@ -482,7 +482,23 @@ def execute(scenario, keep_trace=False):
         leaf = H.txhash_from_raw(bytes(tx.raw))
         branch = [bytes.fromhex(x)[::-1] for x in served['merkle']]
         folded = H.merkle_fold(leaf, branch, served['pos'])
-        return folded == root_at(recorded_height), 'fold'
+        if folded != root_at(recorded_height):
+            return False, 'fold'
+        # "altering the position makes verification fail": the supplied position must be the index of a leaf in a
+        # tree of this depth (bits above the branch would simply be ignored by a fold), and it must not name the
+        # padding copy of an odd level - a node whose LEFT sibling equals it holds no transaction of the block
+        pos = served['pos']
+        if not isinstance(pos, int) or isinstance(pos, bool) or not 0 <= pos < (1 << len(branch)):
+            return False, 'position_outside_tree'
+        node = leaf
+        for i, sib in enumerate(branch):
+            if (pos >> i) & 1:
+                if sib == node:
+                    return False, 'position_on_padding_copy'
+                node = H.dsha256(sib + node)
+            else:
+                node = H.dsha256(node + sib)
+        return True, 'fold'
 
     # ---- header store oracle: whatever Headers.connect wrote must be headers of the hub's chain history ----------
     store = {'findings': [], 'report': 'now', 'reported': False}
@@ -586,12 +602,10 @@ def execute(scenario, keep_trace=False):
         run.probes['expected_verified' if expected else 'expected_rejected'] += 1
         if reason == 'no_header':
             run.probes['header_absent' if remote_height > 0 else 'height_not_positive'] += 1
-        if expected and kind == 'pos_bit' and isinstance(served, dict) and 'merkle' in served:
-            htx = hub.txs.get(htxid)
-            if htx is not None and (served['pos'] ^ htx.pos) >= (1 << len(served['merkle'])):
-                run.probes['pos_bit_above_branch_accepted'] += 1
-            else:
-                run.probes['dup_last_node_flip_accepted'] += 1
+        if reason == 'position_outside_tree':
+            run.probes['pos_bit_above_branch_judged'] += 1
+        elif reason == 'position_on_padding_copy':
+            run.probes['dup_last_node_flip_judged'] += 1
         if expected and kind == 'tx_bytes':
             run.probes['witness_only_alteration_accepted'] += 1
         judged.append((tx, expected))
